@@ -486,7 +486,15 @@ def work(task):
             # leak into the tables written next
             codec.poison()
         n += 1
-        for sig, detail in run_history(entry, where, hist):
+        try:
+            res = run_history(entry, where, hist)
+        except Exception as e:  # noqa  (e.g. the written bytes cannot even
+            # be read back by the reference decoder)
+            import traceback
+
+            res = [("C14/written-table-unreadable:%s" % type(e).__name__,
+                    traceback.format_exc()[-300:])]
+        for sig, detail in res:
             if len(bad) < 20:
                 bad.append((sig, detail, entry["name"], where, list(hist)))
     return n, bad
